@@ -18,6 +18,16 @@
 (* restarts may happen at synchronisation points; the interface (Listen /  *)
 (* Confirm) changes only across a restart.                                 *)
 (*                                                                         *)
+(* Dependencies: Dep gives, per role, the role whose output it spends.     *)
+(* With Dep = <<0,1,2,1>> the histories contain dependency chains of depth *)
+(* up to three (1 <- 2 <- 3, and 1 <- 4) packed into one block or spread   *)
+(* over blocks, present / absent / moved (packed on one branch, spread on  *)
+(* the other) in the competing fork.  Transactions of one block are given  *)
+(* in a topological order; independent ones in ascending or descending     *)
+(* order (rev).  transactions_confirmed may hand over ANY part of a block  *)
+(* that respects the dependencies (one generation per call, the parent     *)
+(* with its child and the grandchild later, ...).                          *)
+(*                                                                         *)
 (* Checked: the environment is consistent -- whenever the client has done  *)
 (* everything the contract asks for, the object has been told exactly the  *)
 (* best chain (EnvConsistent), and it can always finish (no deadlock).     *)
@@ -25,7 +35,7 @@
 (***************************************************************************)
 EXTENDS ChainView, Json
 
-CONSTANTS MaxA, MaxB, MaxBlocks, UseRoles, MinH2, MinH3, FundingRole, MaxExplored, MaxDup, MaxRestarts,
+CONSTANTS MaxA, MaxB, MaxBlocks, UseRoles, MinH2, MinH3, MinH4, Dep3, FundingRole, MaxExplored, MaxDup, MaxRestarts,
           Intermediate   \* allow an intermediate synchronisation point on A / a stop at the fork point
 
 VARIABLES
@@ -33,12 +43,23 @@ VARIABLES
   phase,               \* "idle" | "moving"
   todo,                \* remaining targets
   explored, dups, restarts,
+  rev,                 \* independent transactions of a block are ordered by descending role number
   hist                 \* the script so far
 
-mvars == <<hvars, target, tp, cf, ifc, gv, phase, todo, explored, dups, restarts, hist>>
+mvars == <<hvars, target, tp, cf, ifc, gv, phase, todo, explored, dups, restarts, rev, hist>>
 
 NoConf == [r \in Roles |-> None]
-MinH == <<0, MinH2, MinH3, 0>>
+MinH == <<0, MinH2, MinH3, MinH4>>
+\* role 3 spends an output of role Dep3 (1: star; 2: the chain 1 <- 2 <- 3); roles 2 and 4 spend role 1
+Dep == <<0, 1, Dep3, 1>>
+
+\* a topological order of a set of roles; ties broken by ascending (descending if rv) role number
+RECURSIVE Ord(_, _)
+Ord(S, rv) == IF S = {} THEN <<>> ELSE
+  LET ready == {r \in S : Dep[r] \notin S}
+      x == IF rv THEN CHOOSE r \in ready : \A q \in ready : q <= r
+                 ELSE CHOOSE r \in ready : \A q \in ready : r <= q
+  IN <<x>> \o Ord(S \ {x}, rv)
 
 \* ---- histories
 Shape(la, f, lb) == [k \in 1..(la + lb) |-> IF k <= la THEN k - 1 ELSE IF k = la + 1 THEN f ELSE k - 1]
@@ -66,10 +87,13 @@ MCInit ==
          /\ has = UseRoles
          /\ minh = [r \in Roles |-> MinH[r]]
          /\ fundingRole = FundingRole
+         /\ dep = Dep
          /\ TreeOK
          /\ \A i \in 1..Len(tg) : MoveOK(IF i = 1 THEN 0 ELSE tg[i - 1], tg[i])
          /\ \E r \in UseRoles : \E b \in 1..(la + lb) : r \in txin[b]   \* something relevant happens
          /\ todo = tg
+         /\ rev \in BOOLEAN
+         /\ rev => \E b \in 1..(la + lb) : Ord(txin[b], TRUE) # Ord(txin[b], FALSE)
   /\ target = 0
   /\ tp = 0 /\ cf = NoConf /\ ifc = "none" /\ gv = FALSE
   /\ phase = "idle" /\ explored = 0 /\ dups = 0 /\ restarts = 0
@@ -89,7 +113,7 @@ MPlain ==
   /\ ifc' = "listen" /\ gv' = FALSE
   /\ hist' = Append(hist, [op |-> "plain", t |-> Head(todo)])
   /\ phase' = "idle"
-  /\ UNCHANGED <<hvars, explored, dups, restarts>>
+  /\ UNCHANGED <<hvars, rev, explored, dups, restarts>>
 
 MBegin ==
   /\ phase \in {"idle", "restarted"} /\ todo # <<>>
@@ -98,7 +122,7 @@ MBegin ==
   /\ phase' = "moving" /\ explored' = explored + 1
   /\ gv' = FALSE
   /\ hist' = Append(hist, [op |-> "begin", t |-> Head(todo)])
-  /\ UNCHANGED <<hvars, tp, cf, ifc, dups, restarts>>
+  /\ UNCHANGED <<hvars, rev, tp, cf, ifc, dups, restarts>>
 
 MRestart ==
   /\ phase = "idle" /\ todo # <<>> /\ hist # <<>>
@@ -108,7 +132,7 @@ MRestart ==
   /\ ifc' = "none" /\ restarts' = restarts + 1
   /\ phase' = "restarted"                  \* (in this instance) always followed by an explored transition
   /\ hist' = Append(hist, [op |-> "restart"])
-  /\ UNCHANGED <<hvars, target, tp, cf, gv, todo, explored, dups>>
+  /\ UNCHANGED <<hvars, rev, target, tp, cf, gv, todo, explored, dups>>
 
 MConnect ==
   /\ phase = "moving"
@@ -116,7 +140,7 @@ MConnect ==
        /\ CanConnect(tp, ifc, b)
        /\ tp' = b /\ cf' = ConfAfterConnect(cf, b) /\ ifc' = "listen"
        /\ hist' = Append(hist, [op |-> "conn", b |-> b])
-  /\ UNCHANGED <<hvars, target, gv, phase, todo, explored, dups, restarts>>
+  /\ UNCHANGED <<hvars, rev, target, gv, phase, todo, explored, dups, restarts>>
 
 MDisconnect ==
   /\ phase = "moving"
@@ -124,11 +148,11 @@ MDisconnect ==
        /\ CanDisconnect(tp, ifc, f)
        /\ tp' = f /\ cf' = ConfAfterRewind(cf, f) /\ ifc' = "listen"
        /\ hist' = Append(hist, [op |-> "disc", to |-> f])
-  /\ UNCHANGED <<hvars, target, gv, phase, todo, explored, dups, restarts>>
+  /\ UNCHANGED <<hvars, rev, target, gv, phase, todo, explored, dups, restarts>>
 
-\* selections offered: the whole block, or (when parent and children share a block) the parent
-\* alone followed by the children alone
-Selections(b) == {txin[b]} \cup (IF 1 \in txin[b] /\ txin[b] # {1} THEN {{1}, txin[b] \ {1}} ELSE {})
+\* selections offered: any part of the block (CanTxs admits those that respect the dependencies:
+\* the whole block, one generation per call, a parent with its child and the grandchild later, ...)
+Selections(b) == (SUBSET txin[b]) \ {{}}
 
 MTxs ==
   /\ phase = "moving"
@@ -138,15 +162,15 @@ MTxs ==
           /\ isdup => dups < MaxDup
           /\ dups' = IF isdup THEN dups + 1 ELSE dups
        /\ cf' = ConfAfterTxs(cf, b, sel) /\ ifc' = "confirm" /\ gv' = TRUE
-       /\ hist' = Append(hist, [op |-> "txs", b |-> b, sel |-> sel])
-  /\ UNCHANGED <<hvars, target, tp, phase, todo, explored, restarts>>
+       /\ hist' = Append(hist, [op |-> "txs", b |-> b, sel |-> Ord(sel, rev)])
+  /\ UNCHANGED <<hvars, rev, target, tp, phase, todo, explored, restarts>>
 
 MUnconfirm ==
   /\ phase = "moving"
   /\ CanUnconfirm(cf, ifc, gv) /\ Stale(cf) # {}
   /\ cf' = ConfAfterUnconfirm(cf) /\ ifc' = "confirm"
   /\ hist' = Append(hist, [op |-> "unconf"])
-  /\ UNCHANGED <<hvars, target, tp, gv, phase, todo, explored, dups, restarts>>
+  /\ UNCHANGED <<hvars, rev, target, tp, gv, phase, todo, explored, dups, restarts>>
 
 MBest ==
   /\ phase = "moving"
@@ -154,14 +178,14 @@ MBest ==
        /\ CanBest(tp, cf, ifc, b)
        /\ tp' = b /\ cf' = ConfAfterBest(tp, cf, b) /\ ifc' = "confirm"
        /\ hist' = Append(hist, [op |-> "best", b |-> b])
-  /\ UNCHANGED <<hvars, target, gv, phase, todo, explored, dups, restarts>>
+  /\ UNCHANGED <<hvars, rev, target, gv, phase, todo, explored, dups, restarts>>
 
 MSync ==
   /\ phase = "moving"
   /\ SyncedTo(tp, cf)
   /\ phase' = "idle"
   /\ hist' = Append(hist, [op |-> "sync"])
-  /\ UNCHANGED <<hvars, target, tp, cf, ifc, gv, todo, explored, dups, restarts>>
+  /\ UNCHANGED <<hvars, rev, target, tp, cf, ifc, gv, todo, explored, dups, restarts>>
 
 MDone == phase = "idle" /\ todo = <<>> /\ UNCHANGED mvars
 \* out of budget (a bound of this instance, not of the contract): the behaviour is abandoned
@@ -187,5 +211,5 @@ HistoryOK == TreeOK
 \* a behaviour is only interesting when at least one transition was explored call by call
 EmitScripts ==
   (phase = "idle" /\ todo = <<>> /\ explored > 0)
-    => PrintT(<<"SCRIPT", ToJson([parent |-> parent, txs |-> [b \in 1..nb |-> txin[b]], ops |-> hist])>>)
+    => PrintT(<<"SCRIPT", ToJson([parent |-> parent, dep |-> dep, txs |-> [b \in 1..nb |-> Ord(txin[b], rev)], ops |-> hist])>>)
 =============================================================================
